@@ -521,7 +521,7 @@ fn c13_extract_never_coerces_between_kinds() {
 }
 
 // (consumes a Vec<Cbor>: the recursive drop glue of cbor2::Value is unfolded to the unwind bound; > 240 s)
-// @check id=C13 tier=thorough cap=1500 role=extract_bytes_from_int_array
+// @check id=C13 tier=thorough cap=600 role=extract_bytes_from_int_array
 // @fns FieldValue::bytes_from
 // @bound CBOR array of 2 integers, each any i64 / u64: accepted iff every element is in 0..=255, bytes preserved in order
 // @stubs alloc::fmt::format -> String::new()
